@@ -91,10 +91,10 @@ def make_pycs(r, rnd):
     quick = r.tier == "quick"
     out = []
     for v in VERSIONS:
-        libs = rnd.sample(LIBS, 3) if quick else LIBS
+        libs = rnd.sample(LIBS, 3) if quick else rnd.sample(LIBS, 24)
         d = os.path.join(r.wd, "pyc", v)
         rc, o, err = C.run_py(ORACLE_PYC, host=C.ORACLES[v], impl=False,
-                              stdin=json.dumps({"outdir": d, "stdlib": libs, "max_src": 25000 if quick else 120000}))
+                              stdin=json.dumps({"outdir": d, "stdlib": libs, "max_src": 25000 if quick else 60000}))
         if "@@JSON@@" not in o:
             raise RuntimeError(f"oracle_pyc under {v} failed: {err[-800:]}")
         fs = json.loads(o.split("@@JSON@@")[1])
@@ -180,7 +180,7 @@ def run(r):
         cases = []
         for origin, f in files:
             for fmt in FORMATS:
-                cases.append({"file": f, "fmt": fmt, "origin": origin, "pieces": f in deep_files and fmt in COQFMT, "max_text": 12000 if quick else 60000})
+                cases.append({"file": f, "fmt": fmt, "origin": origin, "pieces": f in deep_files and fmt in COQFMT, "max_text": 12000 if quick else 25000})
         res = C.run_impl_op("listing_file", cases, modules=MODS, shards=12, timeout=3000)
         lits, owners = [], []
         reported = set()
@@ -240,7 +240,10 @@ def run(r):
                 r.violation({"component": "Bytecode.dis", "input": c, "stdout": o["stdout"], "stderr": o["stderr"], "why": "stray output"})
             lits.append(piece_lit(c["fmt"], o["recs"], o["text"]))
             owners.append({"synthetic": c, "format": c["fmt"], "recs": o["recs"], "text": o["text"]})
-        bad, errs = C.coq_cases(r.wd, "listing", HEADER + CASE_DEFS, "lcase", "lcase_ok", lits, chunk=40)
+        # case files are kept below ~250 kB each (a 1 MB literal overflows coqc's stack)
+        avg = max(1, sum(len(x) for x in lits) // max(1, len(lits)))
+        big = max(len(x) for x in lits) if lits else 0
+        bad, errs = C.coq_cases(r.wd, "listing", HEADER + CASE_DEFS, "lcase", "lcase_ok", lits, chunk=max(1, min(40, 250000 // max(avg, big // 2 or 1))))
         if errs:
             raise RuntimeError(f"coq case evaluation failed: {errs[0]}")
         r.cov["texts_compared_in_coq"] = len(lits)
